@@ -413,6 +413,36 @@ def empty_shapes(slice_i=0, n_slices=1):
     yield from _wrapped(xs, slice_i, n_slices, True)
 
 
+def shared_depth_shapes(slice_i=0, n_slices=1):
+    """ONE compound object held by two holders that sit on different levels (or on one level with the holder's id sorting before
+    / after the shared node's id): All(group, Imply(c, Any(group, d))), All(group, Any(group, x, variable='either')), ...
+    Enumerated: 6 holder patterns x shared group of 4 kinds x 3 ids x 2 holder ids."""
+    a, b, c, d = ({"k": "leaf", "id": i, "b": [0, 1]} for i in "abcd")
+    t = {"k": "leaf", "id": "t", "b": [-1, 2]}
+    ref = {"k": "ref", "i": 0}
+    i = 0
+    for gk in ("Any", "All", "AtLeast", "AtMost"):
+        for gid in ("group", None, "zz"):
+            g = {"k": gk, "id": gid, "c": [a, b]}
+            if gk == "AtLeast":
+                g = {"k": gk, "id": gid, "v": 1, "s": 1, "c": [a, t]}
+            elif gk == "AtMost":
+                g["v"] = 1
+            for hid in ("either", "zzz", None):
+                roots = [
+                    {"k": "All", "id": "top", "c": [ref, {"k": "Imply", "id": hid, "c": [c, {"k": "Any", "id": None, "c": [ref, d]}]}]},
+                    {"k": "All", "id": None, "c": [ref, {"k": "Any", "id": hid, "c": [ref, c]}]},
+                    {"k": "Any", "id": "top", "c": [ref, {"k": "All", "id": hid, "c": [{"k": "Any", "id": None, "c": [ref, d]}, c]}]},
+                    {"k": "All", "id": None, "c": [{"k": "Imply", "id": hid, "c": [ref, c]}, ref]},
+                    {"k": "Xor", "id": "top", "c": [ref, {"k": "All", "id": hid, "c": [ref, c]}]},
+                    {"k": "AtLeast", "v": 2, "s": 1, "id": None, "c": [ref, {"k": "Any", "id": hid, "c": [{"k": "All", "id": None, "c": [ref, d]}, c]}]},
+                ]
+                for r in roots:
+                    if i % n_slices == slice_i:
+                        yield {"shared": [g], "root": r}
+                    i += 1
+
+
 def with_fixed_leaf(spec, leaf_id, value):
     """deep copy of a spec in which every occurrence of the leaf gets constant bounds (value, value)"""
     import copy
